@@ -3,12 +3,14 @@
 package checks
 
 import (
+	"bytes"
 	"fmt"
 	"os"
 	"os/exec"
 	"path/filepath"
 	"strings"
 	"sync"
+	"time"
 
 	"github.com/gopatchy/bkl"
 	"verif/core"
@@ -545,7 +547,29 @@ func c09Post(a *core.Agg) {
 	}
 	cmd := exec.Command(bin, "racepass", a.Tier)
 	cmd.Env = append(os.Environ(), "GORACE=halt_on_error=1 exitcode=66")
-	out, err := cmd.CombinedOutput()
+	// generous deadline (the pass takes well under a minute): a pass that does not come back is
+	// not judged here - termination is C08's property - but the evidence says that it did not run to the end
+	var buf bytes.Buffer
+	cmd.Stdout, cmd.Stderr = &buf, &buf
+	if err := cmd.Start(); err != nil {
+		a.Notes = append(a.Notes, "race pass could not start: "+err.Error())
+		a.Exhaustive = false
+		return
+	}
+	done := make(chan error, 1)
+	go func() { done <- cmd.Wait() }()
+	var err error
+	select {
+	case err = <-done:
+	case <-time.After(20 * time.Minute):
+		cmd.Process.Kill()
+		<-done
+		a.Notes = append(a.Notes, "free-running -race pass did not finish within 20 minutes and was stopped (not judged)")
+		a.ExtraCov["race_pass"] = "stopped after 20 minutes"
+		a.Exhaustive = false
+		return
+	}
+	out := buf.Bytes()
 	a.ExtraCov["race_pass"] = "ran: " + lastLine(string(out))
 	if err != nil {
 		s := string(out)
